@@ -23,7 +23,7 @@ func TestMain(m *testing.M)   { ev.Main(m, "C11") }
 func TestReplay(t *testing.T) { ev.ReplayWitnesses(t) }
 
 type Step struct {
-	Kind string `json:"kind"` // issue | burst | expire
+	Kind string `json:"kind"` // issue | burst | crowd | expire
 	Host int    `json:"host"`
 	N    int    `json:"n,omitempty"`
 	AgoS int    `json:"ago_s,omitempty"`
@@ -92,7 +92,7 @@ func checkLeaf(c *tls.Certificate, host string, pool *x509.CertPool) string {
 }
 
 var sub = ev.Register("cert-histories",
-	"histories over 1-3 CONNECT targets (DNS names of 1-6 labels in mixed case with digits, hyphens and xn-- labels, IPv4, bracketed IPv6, any port) of issue / concurrent burst of n <= 16 first requests / expiry injected by hook H5 by a drawn margin, against a fresh CA loaded through certs.NewPrivateCA; oracle (crypto/x509): every returned leaf chains to the CA for exactly that host, is inside its validity, has SANs = {host}, matches its private key; two issues without an expiry between return the same certificate; after an expiry a new valid leaf is returned and then reused; after a burst every returned leaf is valid and later calls return one certificate; non-trivial = history has a reuse and an expiry or burst; distinct by (host kinds, history shape)",
+	"histories over 1-3 CONNECT targets (DNS names of 1-6 labels in mixed case with digits, hyphens and xn-- labels, IPv4, bracketed IPv6, any port) of issue / concurrent burst of n <= 16 first requests for one host / crowd of n <= 16 concurrent first requests for n different new hosts (names, addresses or alternating; 3 rounds) / expiry injected by hook H5 by a drawn margin, against a fresh CA loaded through certs.NewPrivateCA; oracle (crypto/x509): every returned leaf chains to the CA for exactly that host, is inside its validity, has SANs = {host}, matches its private key; two issues without an expiry between return the same certificate; after an expiry a new valid leaf is returned and then reused; after a burst every returned leaf is valid and later calls return one certificate; in a crowd every host gets a leaf valid for itself, also from the cache afterwards; non-trivial = history has a reuse and an expiry or burst; distinct by (host kinds, history shape)",
 	func(h Hist, o *ev.Obs) *ev.Failure {
 		dir, err := os.MkdirTemp("", "verif-c11-")
 		if err != nil {
@@ -163,6 +163,48 @@ var sub = ev.Register("cert-histories",
 					return ev.Failf("cert.not-reused:after-burst", "step %d: after a burst of %d first requests for %q later calls do not return one certificate", i, st.N, hp)
 				}
 				last[hi] = a
+			case "crowd":
+				// first requests for n different new hosts at the same moment: each tunnel must still get the
+				// certificate of its own host (shared template / buffer state between concurrent issues)
+				churn = true
+				for round := 0; round < 3; round++ {
+					hosts := make([]string, st.N)
+					for g := range hosts {
+						switch {
+						case st.AgoS == 1 || (st.AgoS == 2 && g%2 == 0):
+							hosts[g] = fmt.Sprintf("10.%d.%d.%d", i+1, round, g+1)
+						default:
+							hosts[g] = fmt.Sprintf("h%d.crowd%d-%d.test", g, i, round)
+						}
+					}
+					res := make([]*tls.Certificate, st.N)
+					errs := make([]error, st.N)
+					start := make(chan struct{})
+					var wg sync.WaitGroup
+					for g := 0; g < st.N; g++ {
+						wg.Add(1)
+						go func(g int) {
+							defer wg.Done()
+							<-start
+							res[g], errs[g] = ca.GetCertForHost(hosts[g] + ":443")
+						}(g)
+					}
+					close(start)
+					wg.Wait()
+					for g := range res {
+						if errs[g] != nil {
+							return ev.Failf("cert.issue-failed:crowd", "step %d: %q among %d concurrent new hosts: %v", i, hosts[g], st.N, errs[g])
+						}
+						if why := checkLeaf(res[g], hosts[g], pool); why != "" {
+							return ev.Failf("cert.invalid:"+strings.SplitN(why, ":", 2)[0]+":crowd", "step %d: %q requested together with %d other new hosts: %s", i, hosts[g], st.N-1, why)
+						}
+						if again, _ := ca.GetCertForHost(hosts[g] + ":443"); again != res[g] {
+							if why := checkLeaf(again, hosts[g], pool); why != "" {
+								return ev.Failf("cert.invalid:"+strings.SplitN(why, ":", 2)[0]+":crowd-cached", "step %d: cached certificate of %q after a crowd of %d: %s", i, hosts[g], st.N, why)
+							}
+						}
+					}
+				}
 			case "expire":
 				churn = true
 				if err := ca.VerifStoreExpired(host, time.Duration(st.AgoS)*time.Second); err != nil {
@@ -220,6 +262,10 @@ func drawHist(t *rapid.T) Hist {
 			st.Kind = "issue"
 		case 3:
 			st.Kind, st.N = "burst", rapid.IntRange(2, 16).Draw(t, "n")
+			if rapid.Bool().Draw(t, "crowd") {
+				// AgoS selects the SAN kinds of the crowd: 0 names, 1 addresses, 2 alternating
+				st.Kind, st.AgoS = "crowd", rapid.IntRange(0, 2).Draw(t, "crowd-kind")
+			}
 		default:
 			st.Kind, st.AgoS = "expire", rapid.SampledFrom([]int{0, 1, 60, 3600, 864000}).Draw(t, "ago")
 		}
